@@ -175,6 +175,11 @@ def rewrite_all_references(
     all_known = set(known_components).union(looped_ids)
     _ = FlowIR.discover_reference_strings(value, owner_component_stage, all_known, out_map)
 
+    # VV: Substitute all matches in one pass over the original string: the text that a substitution produces must
+    # not be rewritten by a later one (e.g. the value of a loop-carried binding contains the name of its producer,
+    # which the same string may also reference directly)
+    rewrites = {}
+
     for match in out_map:
         rewrite = rewrite_reference(out_map[match], binding_values, import_to_stage, owner_component_stage)
 
@@ -198,13 +203,27 @@ def rewrite_all_references(
                     match, rewrite, value
                 ))
 
-        pattern = r'\b' + re.escape(match) + r'\b'
+        rewrites[match] = rewrite
 
-        try:
-            value = re.sub(pattern, rewrite, value, 1)
-        except Exception:
-            flowirLogger.critical("Failed to res.sub(\"%s\", \"%s\", \"%s\"" % (pattern, rewrite, value))
-            raise
+    if not rewrites:
+        return value
+
+    pattern = '|'.join(r'\b' + re.escape(match) + r'\b' for match in sorted(rewrites, key=len, reverse=True))
+    substituted = set()
+
+    def substitute(matched):
+        # VV: as before, only the first occurrence of a reference is rewritten
+        match = matched.group(0)
+        if match in substituted:
+            return match
+        substituted.add(match)
+        return rewrites[match]
+
+    try:
+        value = re.sub(pattern, substitute, value)
+    except Exception:
+        flowirLogger.critical("Failed to res.sub(\"%s\", %s, \"%s\"" % (pattern, rewrites, value))
+        raise
 
     return value
 
